@@ -44,7 +44,7 @@ ASSUMPTIONS = ['TIF-marked LIS files whose first record is exactly 276 bytes sha
 SHARDS = {'quick': 4, 'thorough': 16}
 REQUIRED_CLASSES = {'valid-RP66V1': 1, 'valid-LIS': 1, 'valid-LISt': 1, 'valid-LIStr': 1, 'valid-LAS1.2': 1, 'valid-LAS2.0': 1, 'valid-BIT': 1,
                     'valid-DAT': 1, 'arbitrary-truncation': 1, 'arbitrary-mutation': 1, 'arbitrary-splice': 1, 'arbitrary-random': 1, 'arbitrary-text-token': 1, 'arbitrary-digit-run': 1,
-                    'valid-DAT-first-row-beyond-4KiB': 1, 'valid-file>8KiB': 1, 'arbitrary-ebcdic': 1, 'valid-BIT-20-channels': 1, 'valid-BIT-first-pass-without-frames': 1, 'valid-LIS-over-100-even-records-then-odd': 1, 'valid-file-from-path': 1, 'valid-LIS-padded-records': 1, 'valid-LIS-of-one-physical-record': 1, 'valid-LIS-TIF-padded-by>=12': 1}
+                    'valid-DAT-first-row-beyond-4KiB': 1, 'valid-file>8KiB': 1, 'arbitrary-ebcdic': 1, 'valid-BIT-20-channels': 1, 'valid-BIT-first-pass-without-frames': 1, 'valid-LIS-over-100-even-records-then-odd': 1, 'valid-file-from-path': 1, 'valid-LIS-padded-records': 1, 'valid-LIS-of-one-physical-record': 1, 'valid-LAS-with-preamble>=64-lines': 1, 'valid-LIS-TIF-padded-by>=12': 1}
 
 
 class Timeout(Exception):
@@ -253,6 +253,7 @@ def check_valid(case, cc):
     cc.cls('valid-' + exp)
     cc.cls('valid-file>8KiB', len(data) > 8192)
     cc.cls('valid-LIS-over-100-even-records-then-odd', case['fmt'] == 'LIS' and bool(case['model'].get('many')) and case['model']['many']['n'] > 100)
+    cc.cls('valid-LAS-with-preamble>=64-lines', case['fmt'] == 'LAS' and int(case['layout'].get('preamble') or 0) >= 64)
     cc.cls('valid-LIS-of-one-physical-record', case['fmt'] == 'LIS' and len(case['model']['items']) == 1)
     cc.cls('valid-LIS-padded-records', case['fmt'] == 'LIS' and bool(case['model']['cfg'].get('pad')))
     cc.cls('valid-LIS-TIF-padded-by>=12', case['fmt'] == 'LIS' and (case['model']['cfg'].get('pad') or [''])[0] == 'min' and case['model']['cfg']['pad'][1] >= 64)
